@@ -45,6 +45,7 @@ pub fn prop() -> Prop {
         independent: &[],
         ref_sample: |_| 0,
         required_probes: &["world_dkg", "world_refresh_dkg", "world_refresh_dealer", "world_repair", "world_sign_rerand", "world_sign_tweak", "crash_after_DkgR1", "crash_after_DkgR2", "crash_after_CommitReq", "crash_after_SignReq", "crash_after_start", "crash_hub", "store_json", "store_bin", "always_reload", "multi_crash", "preprocess_roundtrip"],
+        prepare: None,
     }
 }
 
